@@ -273,11 +273,12 @@ class ParametricTransform:
             raise TypeError(
                 f"{type(self).__name__}.link() 'other' must be of the same type, got {type(other).__name__}"
             )
-        if "params" in self._parameters:
-            # Release parameter name such that a module can be assigned to it, without
-            # modifying the container of parameters shared with other shallow copies
-            self._parameters = self._parameters.copy()
-            del self._parameters["params"]
+        # A linked transformation has no parameters on its own. Release the parameter name such that
+        # a module can be assigned to it, and use an own container of parameters instead of the one
+        # shared with other shallow copies: a Parameter which one of these (e.g., the transformation
+        # this one is linked to) registers later would otherwise take precedence over the link.
+        self._parameters = self._parameters.copy()
+        self._parameters.pop("params", None)
         self.params = other
         if not hasattr(self, "p"):
             if other.params is None:
